@@ -1056,6 +1056,12 @@ func (m *M) pathsOf(p *gojq.Query, e *env, v any, k func(path []any) error) erro
 			return err
 		}
 		if !ok {
+			// inside value-producing constructs (object keys, arithmetic operands …) the implementation may or may not
+			// track navigation, so the point at which it notices the computed value — inside or outside an enclosing
+			// try — is not pinned down by the statement
+			if src := p.String(); strings.Contains(src, "try") || strings.Contains(src, "?") {
+				return unsup("invalid path inside a path expression that contains try")
+			}
 			return ierr("invalid path: result is a computed value")
 		}
 		return k(w.C.path.slice())
